@@ -59,6 +59,7 @@ import (
 	"fmt"
 	"io"
 	"os"
+	"sync"
 	"time"
 
 	AppCore "github.com/goblimey/go-ntrip/apps/appcore"
@@ -180,21 +181,36 @@ func HandleMessages(startTime time.Time, reader io.Reader, writer io.Writer, con
 
 	channels := make([]chan rtcm.Message, 0)
 
+	// writers is used to wait for the goroutines that write the messages.
+	var writers sync.WaitGroup
+
 	messageChan := make(chan rtcm.Message)
-	go writeRTCMMessages(messageChan, writer)
+	writers.Add(1)
+	go func() {
+		defer writers.Done()
+		writeRTCMMessages(messageChan, writer)
+	}()
 	channels = append(channels, messageChan)
 
 	if config.DisplayMessages {
 		displayLogWriter :=
 			dailylogger.New(config.MessageLogDirectory, "rtcm.", ".txt")
 		displayChan := make(chan rtcm.Message)
-		go writeReadableMessages(displayChan, displayLogWriter)
+		writers.Add(1)
+		go func() {
+			defer writers.Done()
+			writeReadableMessages(displayChan, displayLogWriter)
+		}()
 		channels = append(channels, displayChan)
 	}
 	if config.RecordMessages {
 		messageLogWriter := dailylogger.New(config.MessageLogDirectory, "rtcmfilter.", ".rtcm")
 		rtcmChan := make(chan rtcm.Message)
-		go writeRTCMMessages(rtcmChan, messageLogWriter)
+		writers.Add(1)
+		go func() {
+			defer writers.Done()
+			writeRTCMMessages(rtcmChan, messageLogWriter)
+		}()
 		channels = append(channels, rtcmChan)
 	}
 
@@ -203,4 +219,12 @@ func HandleMessages(startTime time.Time, reader io.Reader, writer io.Writer, con
 
 	// We only get to here if the handler stops.
 	close(messageChan)
+
+	// Close the channels feeding the logs as well.  The caller exits as
+	// soon as this returns, so wait until all of the messages have been
+	// written.
+	for _, ch := range channels[1:] {
+		close(ch)
+	}
+	writers.Wait()
 }
